@@ -275,4 +275,37 @@ theorem zipBpms_map (evs : List (Rat × Rat)) (f : Rat × Rat → Rat) :
   | nil => rfl
   | cons e rest ih => simp [zipBpms, ih]
 
+/-- `read_pkgs` = stable-sorted notes and tempo events, each at `posTime` (stated as `o2j_times` in Props/C07) -/
+theorem readPkgs_eq (pkgs : List Pkg) (init : Rat) (hmf : pkgs.any (·.mfrac) = false) (h0 : init ≠ 0) :
+    readPkgs pkgs false init =
+      .ok ⟨(sortNotes (pkgs.flatMap (·.notes))).map (noteOut init (sortBpms (pkgs.flatMap (·.bpms)))),
+           ⟨0, init, 0⟩ :: (sortBpms (pkgs.flatMap (·.bpms))).map (bpmOut init (sortBpms (pkgs.flatMap (·.bpms))))⟩ := by
+  unfold readPkgs
+  simp only [hmf, Bool.false_eq_true, if_false]
+  rw [if_neg (by intro h; exact h0 h.1)]
+  rw [sweep_table _ _ _ (dedupSort_asc _), sweep_offsets, consumeAll_integ _ _ (sortBpms_sorted _)]
+  have hint : ∀ evs p, integS ⟨0, 0, init⟩ evs p = posTime init evs p := fun _ _ => rfl
+  simp only [hint]
+  rw [mapE_eq_ok_map _ (noteOut init (sortBpms (pkgs.flatMap (·.bpms))))]
+  · simp only [bind, Except.bind]
+    rw [zipBpms_map]
+    rfl
+  · intro n hn
+    have hpos : n.pos ∈ dedupSort ((sortNotes (pkgs.flatMap (·.notes))).map Note.pos ++
+        (sortNotes (pkgs.flatMap (·.notes))).filterMap Note.tailPos) := by
+      rw [mem_dedupSort]; simp only [List.mem_append, List.mem_map]; left; exact ⟨n, hn, rfl⟩
+    unfold timeNote
+    rw [lookupT_map _ _ _ hpos]
+    cases n with
+    | hit s => rfl
+    | hold h t =>
+      have htl : t.pos ∈ dedupSort ((sortNotes (pkgs.flatMap (·.notes))).map Note.pos ++
+          (sortNotes (pkgs.flatMap (·.notes))).filterMap Note.tailPos) := by
+        rw [mem_dedupSort]; simp only [List.mem_append, List.mem_filterMap]; right
+        exact ⟨.hold h t, hn, rfl⟩
+      simp only []
+      rw [lookupT_map _ _ _ htl]
+      rfl
+
+
 end Reamber.O2J
